@@ -465,6 +465,14 @@ def run_late(spec, acc):
 
 
 def run_case(rng, acc):
+  if rng.random() < 0.1:
+    # a comparison that RAISES from a leaf (array-style ==, outside the property's leaves): it
+    # must leave nothing behind that changes the answers of later comparisons in this thread
+    from vt.rec import Amb
+    x = fdl.Config(kinds.node, a=fdl.Config(kinds.two, x=Amb(1), y=[1]), b=fdl.Config(kinds.two, x=2))
+    y = fdl.Config(kinds.node, a=fdl.Config(kinds.two, x=Amb(1), y=[1]), b=fdl.Config(kinds.two, x=2))
+    if safe_eq(x, y)[0] == 'raise':
+      acc.obs('comparisons_raising_from_a_leaf')
   if rng.random() < 0.2 and not EXTRA_CONTAINERS:
     return alias_case(rng, acc)
   opts = gen.Opts(max_nodes=rng.choice([4, 8, 14]), max_depth=4, p_share=rng.choice([0.2, 0.45]),
@@ -526,7 +534,19 @@ def run_case(rng, acc):
          and not ({'a', 'b'} <= set(n.kw)) and len(n.pos) < 2]
   if idn:
     try:
-      b_ = copy.deepcopy(realise(root, {}, {}, rng))
+      orig = realise(root, {}, {}, rng)
+      if rng.random() < 0.7:
+        # the original has been USED before it is copied (compared, read by name and position):
+        # whatever those calls cached inside it must not end up as copies in the deep copy
+        safe_eq(orig, orig)
+        for bb in C.identity_objects(orig, include_internals=False).get('buildable', {}).values():
+          try:
+            bb[:]
+            fdl.ordered_arguments(bb, include_defaults=True)
+          except Exception:  # pylint: disable=broad-except
+            pass
+        acc.obs('copied_after_use')
+      b_ = copy.deepcopy(orig)
       c_ = realise(root, {}, {'explicit-default': rng.choice(idn).uid}, rng)
       judge_pair(b_, c_, 'deepcopy~explicit-default', True, acc, witness, feats)
       judge_pair(c_, b_, 'explicit-default~deepcopy', True, acc, witness, feats)
